@@ -91,6 +91,18 @@ pub(crate) trait Session {
         payload: Payload,
     ) -> impl Future<Output = Result<Option<Disposition>, Self::Error>> + Send;
 
+    /// Accounts for a transfer frame that has arrived (next-incoming-id, remote-outgoing-window
+    /// and the count towards the next session flow) without handing it to a link. A transfer
+    /// that is withheld under a transaction has arrived all the same.
+    fn on_incoming_transfer_received(&mut self);
+
+    /// Hands a transfer that has already been accounted for to its link
+    fn deliver_incoming_transfer(
+        &mut self,
+        transfer: Transfer,
+        payload: Payload,
+    ) -> impl Future<Output = Result<Option<Disposition>, Self::Error>> + Send;
+
     /// An `Ok(Some(Disposition))` means an immediate disposition should be sent back
     fn on_incoming_disposition(
         &mut self,
